@@ -30,7 +30,7 @@ CFG = {
             "(chosen by the seed) and the corners of the larger pairs as two 63-bit fingerprints of both lists; every cylinder side count "
             "3..64 with all 8 UV-option combinations, both boxes with none/default/random UVs on even-integer (exact) and "
             "random positive extents, rejected parameter pairs, volume-convergence sequences, plus n sampled cases "
-            "(counts up to 80x80 / 1600 sides in quick, 160x160 / 3200 sides in thorough, extreme aspect ratios, log-uniform sizes 1e-3..1e3; "
+            "(counts up to 80x80 / 1600 sides in quick, 128x128 / 2560 sides in thorough, extreme aspect ratios, log-uniform sizes 1e-3..1e3; "
             "Cone (a lateral surface without base, not one of the solids) is only recorded; distinct by "
             "parameters; non-trivial = the constructor returned at least one triangle",
     "trusted": ["positions of sphere/cylinder/hemisphere are math.Sin/Cos values: signed volume vs the inscribed "
